@@ -63,7 +63,7 @@ def run_case(ctx, rng, idx):
     cfg.invalid_rate = 0.1  # refused calls are part of the build: they must leave no trace in what is measured
     cfg.avoid = {"clear", "copy"}
     raw = []
-    if kind == "H" and (idx in (1, 3, 4) or (ctx.tier == "thorough" and idx % 500 in (13, 15))):
+    if kind == "H" and (idx in (1, 3, 4, 7, 9, 10, 13, 15, 16, 19, 21, 22) or (ctx.tier == "thorough" and idx % 500 in (13, 15))):
         from ..gen import core_periphery
 
         ctx.event("core-periphery-source")
